@@ -528,6 +528,25 @@ def gen_case(rng, circuit_friendly=False):
         vars_[t][2] = vars_[t][1]
         doms[t] = [vars_[t][1], vars_[t][1]]
         cons[0] = ["sum_eq", vs, rng.randint(sum(doms[i][0] for i in vs), sum(doms[i][1] for i in vs))]
+    if not circuit_friendly and not five and not anon and nv >= 2 and rng.random() < 0.07:
+        # x + a != y + b with a != b, next to an equality that forces the MIRROR value x = y - (b - a): satisfiable, and a propagator
+        # that prunes with the wrong sign of the offset empties the domain
+        i, j = rng.sample(range(nv), 2)
+        a, b = rng.sample(range(0, 4), 2)
+        for t in (i, j):
+            vars_[t][1], vars_[t][2] = 0, rng.randint(4, 6)
+            doms[t] = [0, vars_[t][2]]
+        d = b - a
+        eq = ["cmp", "eq", ["add", _v(i), _c(d)], _v(j)] if d > 0 else ["cmp", "eq", _v(i), ["add", _v(j), _c(-d)]]
+        ne = ["cmp", "ne", ["add", _v(i), _c(a)], ["add", _v(j), _c(b)]] if rng.random() < 0.6 else \
+             (["cmp", "ne", _v(i), ["add", _v(j), _c(d)]] if d > 0 else ["cmp", "ne", ["add", _v(i), _c(-d)], _v(j)])
+        cons[:] = [ne, eq] + ([["cmp", "eq", _v(j), _c(rng.randint(max(0, d), 4))]] if rng.random() < 0.5 else [])
+    if circuit_friendly and nv >= 4 and rng.random() < 0.35:
+        # two nodes other than node 0 whose successors are fixed to each other: a subtour made of fixed arcs only
+        i, j = rng.sample(range(1, nv), 2)
+        vars_[i][1] = vars_[i][2] = j
+        vars_[j][1] = vars_[j][2] = i
+        doms[i], doms[j] = [j, j], [i, i]
     if cons[0][0] in ("sum_eq", "sum_le", "sum_ge") and len(cons[0][1]) >= 3 and rng.random() < 0.35:
         # a fixed (one-value) variable as the last, the first or a middle term of a longer sum
         t = cons[0][1][rng.choice([-1, -1, 0, 1])]
